@@ -88,6 +88,9 @@ type PureDef struct {
 	ResType   string
 	Body      *Clause
 	Rec       bool
+	Trigger    *Clause
+	InductVar  string
+	InductUpto *Clause
 	Opaque    bool // declared only (uninterpreted), axioms given separately
 	Line      string
 }
@@ -617,9 +620,10 @@ func (cs *Contracts) loadFile(path, pkgPath string) error {
 			cs.Ghosts[gd.Name] = gd
 			cur, curLoop, curParam = nil, nil, nil
 		case "lemma":
+			// lemma name(params) [induct v upto expr] [trigger expr] = body
 			m := rePureHdr.FindStringSubmatch(l.rest)
 			if m == nil || m[4] == "" {
-				return fmt.Errorf("%s: lemma syntax: lemma name(params) = expr", l.where)
+				return fmt.Errorf("%s: lemma syntax: lemma name(params) [induct v upto e] [trigger e] = expr", l.where)
 			}
 			c, err := mkClause(m[4], l.where)
 			if err != nil {
@@ -627,6 +631,27 @@ func (cs *Contracts) loadFile(path, pkgPath string) error {
 			}
 			pd := &PureDef{Name: m[1], Pkg: pkgPath, ParamsTxt: m[2], Body: c, Line: l.where}
 			pd.ParamName, pd.ParamType = splitParams(m[2])
+			mid := strings.TrimSpace(m[3])
+			if i := strings.Index(mid, "trigger "); i >= 0 {
+				tc, err := mkClause(mid[i+8:], l.where)
+				if err != nil {
+					return err
+				}
+				pd.Trigger = tc
+				mid = strings.TrimSpace(mid[:i])
+			}
+			if strings.HasPrefix(mid, "induct ") {
+				parts := strings.SplitN(strings.TrimSpace(mid[7:]), " upto ", 2)
+				if len(parts) != 2 {
+					return fmt.Errorf("%s: lemma induction syntax: induct v upto expr", l.where)
+				}
+				pd.InductVar = strings.TrimSpace(parts[0])
+				ic, err := mkClause(parts[1], l.where)
+				if err != nil {
+					return err
+				}
+				pd.InductUpto = ic
+			}
 			cs.Lemmas[pd.Name] = pd
 			cur, curLoop, curParam = nil, nil, nil
 		case "axiom":
